@@ -183,6 +183,22 @@ CHECKS["C18"] = dict(engine="E3+E2", cat="model_checking", design="4/C18",
                      note="one interposed call is atomic; power-loss reordering of unsynced data out of scope; task-filtered "
                           "remodel excluded (the two CLIs key tasks on different file-name forms)")
 
+CHECKS["C19"] = dict(engine="E3", cat="model_checking", design="4/C19",
+                     technique="stateless exploration of all interleavings / crash points / lock time-outs up to a "
+                               "deviation bound of the real cache functions run as threads-as-processes under a baton "
+                               "scheduler with interposed file, lock, clock and URL seams",
+                     text="H1 two populators || loader on an empty cache, H3 populator || populator, H6 network refresh (fake "
+                          "server) || loader with the refresher crashed at every point, H2 populator crashed at every point "
+                          "then loader / populator / loader, H4 two CacheLock holders with time-outs, H5 refresh interval x "
+                          "clock answers x unreadable time-stamp files: every execution within the bound (quick 1-2, thorough "
+                          "2-3 deviations) runs the real code at file-operation granularity; every load must succeed on a "
+                          "complete bundled/served file, no torn file may stay under a final name, a finished population is "
+                          "byte-identical, holders never overlap, a time-out yields CacheException, refreshes inside the "
+                          "interval are skipped. A determinism gate replays the first schedule; the lock model is checked "
+                          "against real portalocker in two processes by --selftest.",
+                     note="one interposed call is atomic; readers see a snapshot; 2 (thorough 4) installed files; lock model "
+                          "instead of real flock inside the explorer")
+
 PENDING_REASON = "check not built yet in this revision (planned in DESIGN.md section 4); not claimed until it is"
 
 
